@@ -478,36 +478,89 @@ func (e *Exec) specUnify(l, r TV) (Term, Term) {
 	return l.T, r.T
 }
 
+// directIndexBase finds, in body, an index expression X[v] (v the bound variable itself, X free
+// of bound variables) and returns X.
+func directIndexBase(body SExpr, v string, bound map[string]bool) SExpr {
+	var found SExpr
+	walkSpec(body, func(x SExpr) {
+		if found != nil {
+			return
+		}
+		ix, ok := x.(*SIndex)
+		if !ok {
+			return
+		}
+		id, ok := ix.I.(*SIdent)
+		if !ok || id.Name != v {
+			return
+		}
+		clean := true
+		walkSpec(ix.X, func(y SExpr) {
+			if yi, ok := y.(*SIdent); ok && bound[yi.Name] {
+				clean = false
+			}
+			if _, ok := y.(*SQuant); ok {
+				clean = false
+			}
+		})
+		if clean {
+			found = ix.X
+		}
+	})
+	return found
+}
+
 func (e *Exec) trQuant(x *SQuant, env *SpecEnv) TV {
 	// nested quantifiers of the same kind are flattened into one binder list
-	var names []string
-	var guards []Term
+	var chain []*SQuant
 	cur := x
 	for {
-		e.nq++
-		name := fmt.Sprintf("%s!q%d", cur.Var, e.nq)
-		v := Term{name, SInt}
-		var vt types.Type = specInt
-		if cur.Type != "" {
-			vt = e.resolveType(env.tpkg, cur.Type)
-			if e.sortOf(vt) != SInt {
-				e.specFail("quantified variable of type %s unsupported", cur.Type)
-			}
-			guards = append(guards, e.rangeFact(v, vt))
-		} else {
-			lo := e.tr(cur.Lo, env).T
-			hi := e.tr(cur.Hi, env).T
-			guards = append(guards, And(Le(lo, v), Lt(v, hi)))
-		}
-		names = append(names, name)
-		env = env.with(cur.Var, TV{v, vt})
+		chain = append(chain, cur)
 		inner, ok := cur.Body.(*SQuant)
 		if !ok || inner.Forall != x.Forall {
 			break
 		}
 		cur = inner
 	}
-	body := e.tr(cur.Body, env)
+	bound := map[string]bool{}
+	for _, q := range chain {
+		bound[q.Var] = true
+	}
+	innermost := chain[len(chain)-1].Body
+	var names []string
+	var guards []Term
+	for _, q := range chain {
+		e.nq++
+		name := fmt.Sprintf("%s!q%d", q.Var, e.nq)
+		v := Term{name, SInt}
+		var vt types.Type = specInt
+		val := v
+		if q.Type != "" {
+			vt = e.resolveType(env.tpkg, q.Type)
+			if e.sortOf(vt) != SInt {
+				e.specFail("quantified variable of type %s unsupported", q.Type)
+			}
+			guards = append(guards, e.rangeFact(v, vt))
+		} else {
+			// absolute addressing: when the variable directly indexes a slice, the SMT variable is the
+			// element address (base + i), so that its trigger (select A p) contains no arithmetic
+			if bx := directIndexBase(innermost, q.Var, bound); bx != nil {
+				if btv, ok := e.tryTr(bx, env); ok && btv.T.Sort == SSlice {
+					root, delta := splitOff(SOff(btv.T))
+					base := Add(root, delta)
+					if base.S != "0" {
+						val = Term{"(- " + name + " " + base.S + ")", SInt}
+					}
+				}
+			}
+			lo := e.tr(q.Lo, env).T
+			hi := e.tr(q.Hi, env).T
+			guards = append(guards, And(Le(lo, val), Lt(val, hi)))
+		}
+		names = append(names, name)
+		env = env.with(q.Var, TV{val, vt})
+	}
+	body := e.tr(innermost, env)
 	if body.T.Sort != SBool {
 		e.specFail("quantifier body not boolean")
 	}
@@ -520,6 +573,20 @@ func (e *Exec) trQuant(x *SQuant, env *SpecEnv) TV {
 		return TV{Term{fmt.Sprintf("(forall (%s) %s)", bs, Implies(And(guards...), body.T).S), SBool}, specBoolT}
 	}
 	return TV{Term{fmt.Sprintf("(exists (%s) %s)", bs, And(append(guards, body.T)...).S), SBool}, specBoolT}
+}
+
+// tryTr translates an expression, reporting failure instead of aborting.
+func (e *Exec) tryTr(x SExpr, env *SpecEnv) (tv TV, ok bool) {
+	defer func() {
+		if r := recover(); r != nil {
+			if _, isSpec := r.(specErr); isSpec {
+				ok = false
+				return
+			}
+			panic(r)
+		}
+	}()
+	return e.tr(x, env), true
 }
 
 func (e *Exec) trCall(x *SCall, env *SpecEnv) TV {
